@@ -399,6 +399,7 @@ func runC16(c *Check, w *World) {
 	}
 	c.Decide(okD, "R16.4", bfn, "digits-default", "the generator writes 6 for a zero code length, the value the parser defaults to", "the generator does not default a zero code length to 6", w.Pos(builder.Pos()))
 	ruleHistoryIndependence(c, w, tb, ef, "R16.H", genT, genH, parse)
+	checkRESTEndpoints(c, w, tb, ef, "R16.REST", "/otp/url")
 	c.Floor("R16.1", 3)
 	c.Floor("R16.2", 1)
 	c.Floor("R16.3", 10)
